@@ -691,6 +691,19 @@ def parse_fields(value: bytes) -> Generator[ParsedField, None, None]:
         )
 
 
+def _enum_to_json(enum_class: Type[Enum], value: int) -> Union[str, int]:
+    """The proto3 JSON form of an enum value: its name, or the number if the
+    enum does not define that number."""
+    name = enum_class.try_value(value).name
+    return name if name is not None else int(value)
+
+
+def _enum_from_json(enum_class: Type[Enum], value: Union[str, int]) -> Enum:
+    if isinstance(value, str):
+        return enum_class.from_string(value)
+    return enum_class.try_value(value)
+
+
 def _values_equal(a: Any, b: Any) -> bool:
     """Field value equality. We consider two nan values to be the same for the
     purposes of comparing messages (otherwise a message is not equal to itself),
@@ -1596,19 +1609,21 @@ class Message(ABC):
                         if isinstance(value, typing.Iterable) and not isinstance(
                             value, str
                         ):
-                            output[cased_name] = [enum_class(el).name for el in value]
+                            output[cased_name] = [
+                                _enum_to_json(enum_class, el) for el in value
+                            ]
                         else:
                             # transparently upgrade single value to repeated
-                            output[cased_name] = [enum_class(value).name]
+                            output[cased_name] = [_enum_to_json(enum_class, value)]
                     elif value is None:
                         if include_default_values:
                             output[cased_name] = value
                     elif meta.optional:
                         enum_class = field_types[field_name].__args__[0]
-                        output[cased_name] = enum_class(value).name
+                        output[cased_name] = _enum_to_json(enum_class, value)
                     else:
                         enum_class = field_types[field_name]  # noqa
-                        output[cased_name] = enum_class(value).name
+                        output[cased_name] = _enum_to_json(enum_class, value)
                 elif meta.proto_type in (TYPE_FLOAT, TYPE_DOUBLE):
                     if field_is_repeated:
                         output[cased_name] = [_dump_float(n) for n in value]
@@ -1669,9 +1684,9 @@ class Message(ABC):
                 elif meta.proto_type == TYPE_ENUM:
                     enum_cls = cls._betterproto.cls_by_field[field_name]
                     if isinstance(value, list):
-                        value = [enum_cls.from_string(e) for e in value]
-                    elif isinstance(value, str):
-                        value = enum_cls.from_string(value)
+                        value = [_enum_from_json(enum_cls, e) for e in value]
+                    else:
+                        value = _enum_from_json(enum_cls, value)
                 elif meta.proto_type in (TYPE_FLOAT, TYPE_DOUBLE):
                     value = (
                         [_parse_float(n) for n in value]
